@@ -136,3 +136,53 @@ func H_C03_rolling() {
 	}
 	vReach("end")
 }
+
+//verif:witness H_C03_rollinglogger end
+//verif:bound C03 all rolling-file LOGGER (sync): one warm-up event, then 2 goroutines x 1 event, concrete clock, sync.Pool in LIFO order (one P), pre-emption at every visible operation (pool, atomics, file write) with at most 1 pre-emptive switch; every event's line must be in the file exactly once, intact
+//verif:engine-only H_C03_rollinglogger
+
+// H_C03_rollinglogger: recycled Event objects must not be shared between overlapping calls.
+func H_C03_rollinglogger() {
+	vOpt("loop", 400)
+	vOpt("schedall", 1)
+	vOpt("preempt", 1)
+	root := vFSRoot()
+	defer vFSCleanup()
+	dir := root + "/logs"
+	vFSMkdir(dir)
+	ts := time.Unix(1700000000, 0)
+	TimeNow = func(ctx context.Context) time.Time { return ts }
+	savedCaller := enableCaller
+	enableCaller = false
+	defer func() { TimeNow = nil; enableCaller = savedCaller }()
+	all := LevelRange{MinLevel: NoneLevel, MaxLevel: MaxLevel}
+	logger := &RollingFileLogger{LoggerBase: LoggerBase{Name: "r", Level: all}, FileDir: dir, FileName: "r", Rotation: TimeRotation{Interval: time.Hour}, MaxAge: 168}
+	if err := logger.Start(); err != nil {
+		panic(err)
+	}
+	tag := &Tag{tag: "_t_x", logger: logger}
+	lay := &TextLayout{BaseLayout{FileLineLength: 48}}
+	Info(context.Background(), tag, Msg("warm-up"))
+	msgs := [2]string{"first-event", "second-event"}
+	done := make(chan int, 2)
+	for g := 0; g < 2; g++ {
+		go func(g int) {
+			Info(context.Background(), tag, Msg(msgs[g]))
+			done <- 1
+		}(g)
+	}
+	<-done
+	<-done
+	logger.Stop()
+	var content []byte
+	for _, n := range vFSNames(dir) {
+		c, _ := vFSRead(dir, n)
+		content = append(content, c...)
+	}
+	want := len(vExpectedLine(lay, ts, "warm-up")) + len(vExpectedLine(lay, ts, msgs[0])) + len(vExpectedLine(lay, ts, msgs[1]))
+	vAssert(len(content) == want, "exactly-the-three-lines-are-in-the-file")
+	for g := 0; g < 2; g++ {
+		vAssert(vContains(content, string(vExpectedLine(lay, ts, msgs[g]))), "each-event-yields-its-own-complete-line-in-the-file")
+	}
+	vReach("end")
+}
